@@ -1,42 +1,64 @@
 (* C03 -- query normalisation never changes what a query means.
    Model: theories/Query.v (internal/query/conditions.go after fixes/C03-*.patch, C14-*.patch).
-   Proofs: QuerySort, QueryClean, QueryFlags, QueryHosts, QueryOps, QuerySet, QueryAtoms, QueryMain, QueryTotal. *)
+   Proofs: QuerySort, QueryClean, QueryFlags, QueryHosts, QueryOps, QuerySet, QueryAtoms, QueryMain, QuerySeq, QueryThen,
+   QueryGroup, QueryChain, QueryMulti (the judged fragment), QueryTotal (witnesses). *)
 From Coq Require Import List NArith ZArith Bool Permutation.
-From Pk Require Import Query QuerySort QueryClean QueryFlags QueryHosts QueryOps QuerySet QueryAtoms QueryMain QueryTotal QuerySeq QueryThen QueryGroup QueryChain.
+From Pk Require Import Query QuerySort QueryClean QueryFlags QueryHosts QueryOps QuerySet QueryAtoms QueryMain QueryTotal QuerySeq QueryThen QueryGroup QueryChain QueryMulti.
 Import ListNotations.
 
 (* (1) Meaning is preserved. For every valuation (one stream per sub-query name with ids, ports, byte counts >= 0,
    ftime <= ltime, tag states; an ARBITRARY payload oracle, matching started at any position) and every well-formed
-   expression of the class `class3`, the conditions returned by query.Parse evaluate to the meaning of the text as
-   written. `class3`: AND, OR, NOT, parentheses, sort/limit/group directives in any nesting over every filter kind
-   (value lists, ranges, open ranges, masks, variables, sub-queries), and THEN whose RIGHT operand is any expression of
-   the class again (AND / OR / NOT groups, negated sequences, further THENs) and whose LEFT operand is a `chain`:
-     - a THEN-free group with at most one payload end: AND / OR groups mixing one payload filter with non-payload
-       filters, negated filters and negated AND/OR groups (`(cdata:x tag:a -cdata:y) then ..`, `(tag:a or cdata:x) then ..`,
-       `-(cdata:x or cdata:y) then ..`, `port:80 then ..`),
-     - a chain followed by such a group, groups in the middle of a chain included
-       (`cdata:w then (cdata:x -cdata:y) then cdata:z`, `-cdata:a then (cdata:b or -cdata:c) then ..`),
-     - an OR of chains.
-   _partial: of the judged fragment (wf_seq) this leaves out, in a non-last operand of THEN, AND groups with SEVERAL
-   payload filters (`(cdata:x cdata:y) then cdata:z`, with the right side restricted by rule 3) and a parenthesised
-   THEN on the right of a THEN (`(cdata:w then (cdata:x then cdata:y)) then cdata:z`); covered by the correspondence
-   runs only (notes/C03.md). *)
-Theorem c03_normalisation_preserves_meaning_partial :
+   expression of the judged fragment `wf_seq true` (notes/C03.md), the conditions returned by query.Parse evaluate to
+   the meaning of the text as written. The judged fragment: AND, OR, NOT, parentheses, sort/limit/group directives in any
+   nesting over every filter kind (value lists, ranges, open ranges, masks, variables, sub-queries), and THEN in any
+   nesting where, inside a non-last operand of a THEN, (1) NOT is over AND/OR groups of filters, (2) AND is over THEN-free
+   operands, (3) to the right of an operand that can end at several payload positions (an AND group with several payload
+   filters) NOT is over OR groups of filters. This includes AND groups with several payload filters on the left of a THEN
+   (`(cdata:x cdata:y) then cdata:z`), groups and parenthesised THENs in the middle of a chain
+   (`cdata:w then (cdata:x -cdata:y) then cdata:z`, `(cdata:w then (cdata:x then cdata:y)) then cdata:z`), directives
+   inside sequences, and anything (negated sequences, AND over sequences) in the last operand. *)
+Theorem c03_normalisation_preserves_meaning :
   forall (v : valuation) (e : expr),
-    val_ok v -> ids_ok v -> class3 e = true -> expr_wf e ->
+    val_ok v -> ids_ok v -> wf_seq true e = true -> expr_wf e ->
     eval_set v (parse_conditions e) = sem v e.
-Proof. exact normalisation_preserves_meaning_class3. Qed.
+Proof. exact normalisation_preserves_meaning_judged. Qed.
 
 (* (2) "matches nothing" (Parse returns the empty set) only for expressions no stream can satisfy. *)
-Theorem c03_impossible_only_if_unsatisfiable_partial :
+Theorem c03_impossible_only_if_unsatisfiable :
   forall e : expr,
-    class3 e = true -> expr_wf e -> parse_conditions e = [] ->
+    wf_seq true e = true -> expr_wf e -> parse_conditions e = [] ->
     forall v : valuation, val_ok v -> ids_ok v -> sem v e = false.
-Proof. exact impossible_only_if_unsatisfiable_class3. Qed.
+Proof. exact impossible_only_if_unsatisfiable_judged. Qed.
 
-(* the class of (1) and (2) contains every expression without THEN and lies inside the judged fragment *)
-Theorem c03_class_contains_then_free : forall e : expr, then_free e = true -> class3 e = true.
-Proof. intros e H. apply class_ok_class3. apply tail_ok_class. apply then_free_tail_ok. exact H. Qed.
+(* every expression without THEN is in the judged fragment *)
+Theorem c03_judged_contains_then_free : forall e : expr, then_free e = true -> wf_seq true e = true.
+Proof. exact then_free_judged. Qed.
+
+(* non-last operands of a THEN: every conjunct of the normal form belongs to a reading of the text that holds wherever
+   the conjunct holds and ends at the same payload positions (the matched parts Ms of the conjunct form an antichain);
+   every reading has such a conjunct, one and the same for several start positions when rule (3) applies *)
+Theorem c03_sequence_operands_sound :
+  forall a : expr, sf a = true -> wf_seq false a = true -> expr_wf a ->
+    exists cs, norm a = Some cs /\ cs <> [] /\ cset_wf cs /\ (then_free a = true -> Forall data_flat cs) /\ sim_m a cs.
+Proof. exact multi_sound. Qed.
+
+(* Conditions.then on a conjunct with several matched parts: the right side holds behind every one of them *)
+Theorem c03_conj_then_sound_multi :
+  forall (v : valuation) (c1 : conj) (Ms : list (list N)) (c2 : conj),
+    mal c1 Ms -> conj_wf c2 ->
+    eval_conj v (conj_then c1 c2) = eval_conj v c1 && at_all v Ms (fun w => eval_conj w c2).
+Proof. exact conj_then_semN. Qed.
+Theorem c03_conj_then_keeps_invariant :
+  forall (c1 : conj) (Ms1 : list (list N)) (c2 : conj) (Ms2 : list (list N)),
+    mal c1 Ms1 -> mal c2 Ms2 -> mal (conj_then c1 c2) (mprod Ms1 Ms2).
+Proof. exact mal_then. Qed.
+
+(* directives drop out of the normal form exactly as they drop out of the meaning *)
+Theorem c03_directives_drop_out :
+  forall e : expr, norm e = match strip e with Some e' => norm e' | None => None end.
+Proof. exact strip_norm. Qed.
+
+(* the classes of the earlier rounds lie inside the judged fragment *)
 Theorem c03_class_inside_judged_fragment : forall e : expr, class3 e = true -> wf_seq true e = true.
 Proof. exact class3_judged. Qed.
 
@@ -133,9 +155,9 @@ Proof. exact negated_group_in_sequence_refuted. Qed.
 
 (* the hypotheses are satisfiable *)
 Example c03_hypotheses_satisfiable :
-  (val_ok ex_val /\ ids_ok ex_val) /\ (class3 ex_chain = true /\ expr_wf ex_chain).
-Proof. exact hypotheses_satisfiable_class3. Qed.
-Example c03_example_value_then : eval_set ex_val (parse_conditions ex_chain) = sem ex_val ex_chain.
+  (val_ok ex_val /\ ids_ok ex_val) /\ (wf_seq true ex_judged = true /\ expr_wf ex_judged).
+Proof. exact hypotheses_satisfiable_judged. Qed.
+Example c03_example_value_then : eval_set ex_val (parse_conditions ex_judged) = sem ex_val ex_judged.
 Proof. vm_compute. reflexivity. Qed.
 Example c03_example_value : eval_set ex_val (parse_conditions ex_tf) = sem ex_val ex_tf.
 Proof. vm_compute. reflexivity. Qed.
